@@ -12,13 +12,18 @@
     The constant / 4503599627370496 is 2^-52 = sys.float_info.epsilon; [f1em5] is the
     double nearest to 1e-5.
 
-    NON-VACUITY.  [GaussFacts] cannot be instantiated inside Coq here (no formalised
-    Gaussian integral is installed), so no [Example] exhibiting an instance of the
-    hypotheses is possible for these theorems; that the record is inhabited by the true
-    standard normal distribution function is a mathematical fact (every field used below
-    was checked numerically against mpmath at 800 digits on 10 000 points).  The branch
-    hypotheses are all satisfiable for the true Phi (e.g. x - t = -9 for the epsilon
-    guard, x = 5, t = 1e-3 for the 1e-5 guard).
+    NON-VACUITY.  The [GaussFacts] premise is instantiated: [GaussInst.PhiK] is the standard
+    normal distribution function constructed in GaussInst.v (the normalised integral of
+    exp (-t^2/2)), [GaussInst.PhiinvK] its inverse, and
+    [GaussFull.GaussFacts_inst : GaussFacts GaussInst.PhiK GaussInst.PhiinvK] is proved
+    without hypothesis (calculus facts in GaussCalc.v, the value of the Gaussian integral in
+    GaussIntegral.v).  Every theorem below with a [GaussFacts] premise has an [_inst]
+    corollary at the end of the file, stated for [GaussInst.PhiK] / [GaussInst.PhiinvK] with
+    that premise removed: nothing about the normal distribution is assumed any more; the
+    only remaining link is that CPython's NormalDist computes this function.  (Every field
+    was also checked numerically against mpmath at 800 digits on 10 000 points.)  The
+    branch hypotheses are all satisfiable for the true Phi (e.g. x - t = -9 for the
+    epsilon guard, x = 5, t = 1e-3 for the 1e-5 guard).
 
     NOT PROVED HERE (not statements about real numbers): "finite" (every real is), and all
     binary64 accuracy figures of the property — 1e-6 relative for v and w, the 1e-13/t and
@@ -28,6 +33,7 @@
 From Coq Require Import Reals.
 From OSV Require Import Num Gauss RInst.
 From OSV.Lemmas Require C17L.
+From OSV Require GaussInst GaussFull.
 Open Scope R_scope.
 
 (** v >= 0 (in fact > 0) on both branches. *)
@@ -213,3 +219,151 @@ Theorem C17_wt_guard_distance :
   <= t * t.
 Proof. exact C17L.wt_guard_distance. Qed.
 Print Assumptions C17_wt_guard_distance.
+
+(** ** The [GaussFacts] premise instantiated.
+
+    Each theorem above that takes [GaussFacts Phi Phiinv] as a premise is restated here for
+    the concrete standard normal distribution function [GaussInst.PhiK] and its inverse
+    [GaussInst.PhiinvK] (constructed in GaussInst.v), with no premise about the normal law:
+    [GaussFull.GaussFacts_inst : GaussFacts GaussInst.PhiK GaussInst.PhiinvK] is proved
+    outright (calculus facts in GaussCalc.v, the Gaussian integral in GaussIntegral.v). *)
+Theorem C17_v_nonneg_inst :
+  forall x t : R, 0 <= @v R (RNum GaussInst.PhiK GaussInst.PhiinvK) x t.
+Proof. exact (C17_v_nonneg GaussInst.PhiK GaussInst.PhiinvK GaussFull.GaussFacts_inst). Qed.
+Print Assumptions C17_v_nonneg_inst.
+
+Theorem C17_v_pos_inst :
+  forall x t : R, 0 < @v R (RNum GaussInst.PhiK GaussInst.PhiinvK) x t.
+Proof. exact (C17_v_pos GaussInst.PhiK GaussInst.PhiinvK GaussFull.GaussFacts_inst). Qed.
+Print Assumptions C17_v_pos_inst.
+
+Theorem C17_w_range_inst :
+  forall x t : R, 0 <= @w R (RNum GaussInst.PhiK GaussInst.PhiinvK) x t <= 1.
+Proof. exact (C17_w_range GaussInst.PhiK GaussInst.PhiinvK GaussFull.GaussFacts_inst). Qed.
+Print Assumptions C17_w_range_inst.
+
+Theorem C17_exact_branch_inst :
+  forall x t : R,
+  (/ 4503599627370496 <= GaussInst.PhiK (x - t) ->
+     @v R (RNum GaussInst.PhiK GaussInst.PhiinvK) x t = phi (x - t) / GaussInst.PhiK (x - t)
+     /\ @w R (RNum GaussInst.PhiK GaussInst.PhiinvK) x t
+        = phi (x - t) / GaussInst.PhiK (x - t) * (phi (x - t) / GaussInst.PhiK (x - t) + (x - t)))
+  /\ (@f1em5 R (RNum GaussInst.PhiK GaussInst.PhiinvK) <= GaussInst.PhiK (t - Rabs x) - GaussInst.PhiK (- t - Rabs x) ->
+        0 < t
+        /\ @vt R (RNum GaussInst.PhiK GaussInst.PhiinvK) x t
+           = (phi (- t - x) - phi (t - x)) / (GaussInst.PhiK (t - x) - GaussInst.PhiK (- t - x))
+        /\ (0 <= ((t - x) * phi (t - x) + (t + x) * phi (- t - x)) / (GaussInst.PhiK (t - x) - GaussInst.PhiK (- t - x))
+                 + (phi (- t - x) - phi (t - x)) / (GaussInst.PhiK (t - x) - GaussInst.PhiK (- t - x))
+                   * ((phi (- t - x) - phi (t - x)) / (GaussInst.PhiK (t - x) - GaussInst.PhiK (- t - x))) ->
+            @wt R (RNum GaussInst.PhiK GaussInst.PhiinvK) x t
+            = ((t - x) * phi (t - x) + (t + x) * phi (- t - x)) / (GaussInst.PhiK (t - x) - GaussInst.PhiK (- t - x))
+              + (phi (- t - x) - phi (t - x)) / (GaussInst.PhiK (t - x) - GaussInst.PhiK (- t - x))
+                * ((phi (- t - x) - phi (t - x)) / (GaussInst.PhiK (t - x) - GaussInst.PhiK (- t - x))))
+        /\ (t <= 1 ->
+            @wt R (RNum GaussInst.PhiK GaussInst.PhiinvK) x t
+            = ((t - x) * phi (t - x) + (t + x) * phi (- t - x)) / (GaussInst.PhiK (t - x) - GaussInst.PhiK (- t - x))
+              + (phi (- t - x) - phi (t - x)) / (GaussInst.PhiK (t - x) - GaussInst.PhiK (- t - x))
+                * ((phi (- t - x) - phi (t - x)) / (GaussInst.PhiK (t - x) - GaussInst.PhiK (- t - x))))).
+Proof. exact (C17_exact_branch GaussInst.PhiK GaussInst.PhiinvK GaussFull.GaussFacts_inst). Qed.
+Print Assumptions C17_exact_branch_inst.
+
+Theorem C17_exact_forms_inst :
+  forall x t : R,
+  (if Rlt_dec x 0
+   then - ((phi (- t - Rabs x) - phi (t - Rabs x)) / (GaussInst.PhiK (t - Rabs x) - GaussInst.PhiK (- t - Rabs x)))
+   else (phi (- t - Rabs x) - phi (t - Rabs x)) / (GaussInst.PhiK (t - Rabs x) - GaussInst.PhiK (- t - Rabs x)))
+  = (phi (- t - x) - phi (t - x)) / (GaussInst.PhiK (t - x) - GaussInst.PhiK (- t - x))
+  /\
+  ((t - Rabs x) * phi (t - Rabs x) + (t + Rabs x) * phi (- t - Rabs x))
+     / (GaussInst.PhiK (t - Rabs x) - GaussInst.PhiK (- t - Rabs x))
+  + (if Rlt_dec x 0
+     then - ((phi (- t - Rabs x) - phi (t - Rabs x)) / (GaussInst.PhiK (t - Rabs x) - GaussInst.PhiK (- t - Rabs x)))
+     else (phi (- t - Rabs x) - phi (t - Rabs x)) / (GaussInst.PhiK (t - Rabs x) - GaussInst.PhiK (- t - Rabs x)))
+    * (if Rlt_dec x 0
+       then - ((phi (- t - Rabs x) - phi (t - Rabs x)) / (GaussInst.PhiK (t - Rabs x) - GaussInst.PhiK (- t - Rabs x)))
+       else (phi (- t - Rabs x) - phi (t - Rabs x)) / (GaussInst.PhiK (t - Rabs x) - GaussInst.PhiK (- t - Rabs x)))
+  = ((t - x) * phi (t - x) + (t + x) * phi (- t - x)) / (GaussInst.PhiK (t - x) - GaussInst.PhiK (- t - x))
+    + (phi (- t - x) - phi (t - x)) / (GaussInst.PhiK (t - x) - GaussInst.PhiK (- t - x))
+      * ((phi (- t - x) - phi (t - x)) / (GaussInst.PhiK (t - x) - GaussInst.PhiK (- t - x))).
+Proof. exact (C17_exact_forms GaussInst.PhiK GaussInst.PhiinvK GaussFull.GaussFacts_inst). Qed.
+Print Assumptions C17_exact_forms_inst.
+
+Theorem C17_v_asymptotic_inst :
+  forall x t : R,
+  GaussInst.PhiK (x - t) < / 4503599627370496 ->
+  x - t < - 8
+  /\ @v R (RNum GaussInst.PhiK GaussInst.PhiinvK) x t = - (x - t)
+  /\ Rabs (@v R (RNum GaussInst.PhiK GaussInst.PhiinvK) x t - phi (x - t) / GaussInst.PhiK (x - t))
+     <= 2 / 100 * (phi (x - t) / GaussInst.PhiK (x - t)).
+Proof. exact (C17_v_asymptotic GaussInst.PhiK GaussInst.PhiinvK GaussFull.GaussFacts_inst). Qed.
+Print Assumptions C17_v_asymptotic_inst.
+
+Theorem C17_w_asymptotic_inst :
+  forall x t : R,
+  GaussInst.PhiK (x - t) < / 4503599627370496 -> x < 0 ->
+  @w R (RNum GaussInst.PhiK GaussInst.PhiinvK) x t = 1
+  /\ Rabs (@w R (RNum GaussInst.PhiK GaussInst.PhiinvK) x t
+           - phi (x - t) / GaussInst.PhiK (x - t) * (phi (x - t) / GaussInst.PhiK (x - t) + (x - t)))
+     <= 2 / 100.
+Proof. exact (C17_w_asymptotic GaussInst.PhiK GaussInst.PhiinvK GaussFull.GaussFacts_inst). Qed.
+Print Assumptions C17_w_asymptotic_inst.
+
+Theorem C17_w_guard_nonneg_x_remark_inst :
+  forall x t : R,
+  GaussInst.PhiK (x - t) < / 4503599627370496 -> 0 <= x ->
+  @w R (RNum GaussInst.PhiK GaussInst.PhiinvK) x t = 0 /\ 8 < t.
+Proof. exact (C17_w_guard_nonneg_x_remark GaussInst.PhiK GaussInst.PhiinvK GaussFull.GaussFacts_inst). Qed.
+Print Assumptions C17_w_guard_nonneg_x_remark_inst.
+
+Theorem C17_vt_asymptotic_inst :
+  forall x t : R,
+  0 < t ->
+  GaussInst.PhiK (t - Rabs x) - GaussInst.PhiK (- t - Rabs x) < @f1em5 R (RNum GaussInst.PhiK GaussInst.PhiinvK) ->
+  Rabs (@vt R (RNum GaussInst.PhiK GaussInst.PhiinvK) x t
+        - (phi (- t - x) - phi (t - x)) / (GaussInst.PhiK (t - x) - GaussInst.PhiK (- t - x)))
+  <= 2 * t.
+Proof. exact (C17_vt_asymptotic GaussInst.PhiK GaussInst.PhiinvK GaussFull.GaussFacts_inst). Qed.
+Print Assumptions C17_vt_asymptotic_inst.
+
+Theorem C17_vt_distance_inst :
+  forall x t : R,
+  0 < t ->
+  Rabs (@vt R (RNum GaussInst.PhiK GaussInst.PhiinvK) x t
+        - (phi (- t - x) - phi (t - x)) / (GaussInst.PhiK (t - x) - GaussInst.PhiK (- t - x)))
+  <= 2 * t.
+Proof. exact (C17_vt_distance GaussInst.PhiK GaussInst.PhiinvK GaussFull.GaussFacts_inst). Qed.
+Print Assumptions C17_vt_distance_inst.
+
+Theorem C17_wt_range_exact_inst :
+  forall x t : R,
+  0 < t ->
+  1 - t * t
+  <= ((t - x) * phi (t - x) + (t + x) * phi (- t - x)) / (GaussInst.PhiK (t - x) - GaussInst.PhiK (- t - x))
+     + (phi (- t - x) - phi (t - x)) / (GaussInst.PhiK (t - x) - GaussInst.PhiK (- t - x))
+       * ((phi (- t - x) - phi (t - x)) / (GaussInst.PhiK (t - x) - GaussInst.PhiK (- t - x)))
+  <= 1.
+Proof. exact (C17_wt_range_exact GaussInst.PhiK GaussInst.PhiinvK GaussFull.GaussFacts_inst). Qed.
+Print Assumptions C17_wt_range_exact_inst.
+
+Theorem C17_wt_distance_partial_inst :
+  forall x t : R,
+  0 < t <= 1 ->
+  Rabs (@wt R (RNum GaussInst.PhiK GaussInst.PhiinvK) x t
+        - (((t - x) * phi (t - x) + (t + x) * phi (- t - x)) / (GaussInst.PhiK (t - x) - GaussInst.PhiK (- t - x))
+           + (phi (- t - x) - phi (t - x)) / (GaussInst.PhiK (t - x) - GaussInst.PhiK (- t - x))
+             * ((phi (- t - x) - phi (t - x)) / (GaussInst.PhiK (t - x) - GaussInst.PhiK (- t - x)))))
+  <= 4 * t * (Rabs x + t).
+Proof. exact (C17_wt_distance_partial GaussInst.PhiK GaussInst.PhiinvK GaussFull.GaussFacts_inst). Qed.
+Print Assumptions C17_wt_distance_partial_inst.
+
+Theorem C17_wt_guard_distance_inst :
+  forall x t : R,
+  0 < t ->
+  GaussInst.PhiK (t - Rabs x) - GaussInst.PhiK (- t - Rabs x) < / 4503599627370496 ->
+  Rabs (@wt R (RNum GaussInst.PhiK GaussInst.PhiinvK) x t
+        - (((t - x) * phi (t - x) + (t + x) * phi (- t - x)) / (GaussInst.PhiK (t - x) - GaussInst.PhiK (- t - x))
+           + (phi (- t - x) - phi (t - x)) / (GaussInst.PhiK (t - x) - GaussInst.PhiK (- t - x))
+             * ((phi (- t - x) - phi (t - x)) / (GaussInst.PhiK (t - x) - GaussInst.PhiK (- t - x)))))
+  <= t * t.
+Proof. exact (C17_wt_guard_distance GaussInst.PhiK GaussInst.PhiinvK GaussFull.GaussFacts_inst). Qed.
+Print Assumptions C17_wt_guard_distance_inst.
